@@ -83,6 +83,17 @@ impl RefTimer {
   }
 }
 
+/// request bits other than the timer's (bit 2) that the timer ever returned
+static FOREIGN_BITS: std::sync::atomic::AtomicU8 = std::sync::atomic::AtomicU8::new(0);
+
+/// the timer may request the timer interrupt and nothing else
+fn timer_request(flags: u8) -> bool {
+  if flags & !4 != 0 {
+    FOREIGN_BITS.fetch_or(flags & !4, std::sync::atomic::Ordering::Relaxed);
+  }
+  flags & 4 != 0
+}
+
 #[derive(Clone, Debug)]
 enum Act {
   Div,
@@ -118,7 +129,7 @@ fn run_impl(h: &[Act], mode: u8, rng: &mut Rng, phase: u32) -> Vec<(u8, u8, bool
       Act::Div => t.reset_divider(),
       Act::Tima(v) => t.set_counter(*v),
       Act::Tma(v) => t.set_modulo(*v),
-      Act::Tac(v) => irq = t.set_timer_control(*v).as_u8() & 4 != 0,
+      Act::Tac(v) => irq = timer_request(t.set_timer_control(*v).as_u8()),
       Act::Elapse(n) => {
         let mut left = *n;
         while left > 0 {
@@ -127,7 +138,7 @@ fn run_impl(h: &[Act], mode: u8, rng: &mut Rng, phase: u32) -> Vec<(u8, u8, bool
             1 => left,
             _ => (1 + rng.below(5000) as u32).min(left),
           };
-          irq |= t.run_cycles(ClockCycles(chunk as usize)).as_u8() & 4 != 0;
+          irq |= timer_request(t.run_cycles(ClockCycles(chunk as usize)).as_u8());
           left -= chunk;
         }
       }
@@ -187,7 +198,7 @@ pub fn run(ctx: &mut Ctx) {
           t.verif_set_cycle_count(phase);
           t.set_counter(tima0);
           t.set_modulo(tma0);
-          let irq = t.run_cycles(ClockCycles(n as usize)).as_u8() & 4 != 0;
+          let irq = timer_request(t.run_cycles(ClockCycles(n as usize)).as_u8());
           let mut r = RefTimer { div: phase as u16, tima: tima0, tma: tma0, tac };
           let want_irq = r.run_closed(n);
           evaluations += 1;
@@ -232,7 +243,7 @@ pub fn run(ctx: &mut Ctx) {
               t.verif_set_cycle_count(phase);
               t.set_counter(tima0);
               t.set_modulo(0x42);
-              let irq = t.set_timer_control(new).as_u8() & 4 != 0;
+              let irq = timer_request(t.set_timer_control(new).as_u8());
               let mut r = RefTimer { div: phase as u16, tima: tima0, tma: 0x42, tac: old };
               let want = r.write_tac(new);
               evaluations += 1;
@@ -413,6 +424,13 @@ pub fn run(ctx: &mut Ctx) {
     }
   }
   let _ = unit;
+  let foreign = FOREIGN_BITS.load(std::sync::atomic::Ordering::Relaxed);
+  if foreign != 0 {
+    ctx.violation(
+      "C13:request:other-interrupt-bits",
+      &format!("the timer returned request bits {:02X} besides (or instead of) the timer interrupt (bit 2): an overflow requests the timer interrupt and nothing else", foreign),
+    );
+  }
   ctx.count("evaluations", evaluations);
   ctx.count("overflows-expected", overflows);
   ctx.count("tac-glitch-increments", glitches);
